@@ -89,6 +89,11 @@ func runCLI(c Case) (o hx.Outcome) {
 	}
 	good := wire(victim.data, unc, c.Backend.Enc)
 	bad, kind, detail := applyCorr(good, unc, c.Corr, victim.data, other, c.Backend.Enc)
+	if !unc && declaredSize(bad) > maxDeclared {
+		o.Class("skipped:header-declares>16MiB")
+		o.Desc = map[string]any{"mode": mCLI, "skipped": "poisoned object announces a content size above 16 MiB", "corruption": kind, "what": detail}
+		return o
+	}
 	plantP(victim.id, bad)
 	changed := !bytes.Equal(bad, good)
 	effective := changed && !decodesTo(bad, unc, victim.data)
